@@ -228,7 +228,8 @@ def main(tier, seed, only=None):
     )
     run.assumptions = ["implementation under test = encoding + cspuz z3 backend", "loops are outside the property's quantifier"]
     shards = gcheck.split_shards(cases, lambda c: 30 * len(c['patterns']) if 'patterns' in c else (1 << len(c['edges'])) * (4 if c['form'] == 'or' else 1), 500)
-    par.run_shards(run, worker, shards, seed)
+    first, rest = gcheck.heavy_first(shards, _CASES)
+    par.run_shards(run, worker, rest, seed, first=first)
     cov = {
         "evaluations": run.c("evaluations"),
         "distinct_nontrivial": sum(1 << len(g[1]) for g in run.total.sets.get("graphs", ())),
